@@ -297,7 +297,7 @@ func main() {
 		Rule:     fmt.Sprintf("%d operation/transport/peer combinations (transport Send/Receive, in-process Accept, the four channel sends and ProcessCommand with a peer that consumes nothing, client FinishSession, server and client EstablishSession with a silent peer and with a server going silent after negotiation options, after the authentication request and after confirming tls) x {deadline, cancellation by another goroutine, cancellation of a context that also has a far deadline} x {3s, 7s}; one operation per execution; all schedules within the deviation bound (delay bounding); latency measured on the virtual clock, which only advances when every goroutine is blocked; distinct outcome = distinct observation log", len(all)),
 		Assume:   []string{"virtual-clock promptness: shows the return does not depend on any timer later than allowed, not wall-clock microseconds", "real TCP/WebSocket listeners' Accept and the WebSocket transport use OS sockets and are not explored (the repository's own tests cover their deadline case natively)"},
 		Scenarios: []harness.Scenario{
-			{Name: "isolated-ops", Opt: opt, Quick: 0, Thorough: 1, Prune: false, Body: body(all), Final: final},
+			{Name: "isolated-ops", Opt: opt, Quick: 1, Thorough: 2, Prune: false, Body: body(all), Final: final},
 		},
 	})
 }
